@@ -510,6 +510,23 @@ def cases_c16(types, rng, tier):
                         ops.append(f"ref|{spec}")
                 if ops:
                     c.add(t, st["sid"], {}, ops, None, f"index numeral {num} on {t['label']} below {keys}", "numeral")
+    # every well-formed access in every runtime state (closed Option / dangling Weak / poisoned lock / mutably borrowed
+    # RefCell / shared Rc ...): a result, never a panic
+    for t in c.types:
+        for st in t["states"]:
+            for keys, idx, kind, n in paths(st["inst"], limit=12 if tier == "quick" else 60):
+                spec = rng.choice([s_ for s_ in (keyspec_list(keys), keyspec_path(as_strings(keys)),
+                                                 keyspec_list([("i", i) for i in idx])) if s_])
+                pay = (payload_for(n, rng) if kind == "leaf" else None) or "0"
+                ops = []
+                if "ser" in t["traits"]:
+                    ops += [f"jget|{spec}|{BIG}", f"pget|{spec}|64"]
+                if "de" in t["traits"]:
+                    ops += [f"jset|{spec}|{enc(pay)}"]
+                if "any" in t["traits"]:
+                    ops += [f"ref|{spec}", f"mut|{spec}|{enc(pay)}"]
+                if ops:
+                    c.add(t, st["sid"], {}, ops, None, f"well-formed access {keys} on {t['label']} state {st['sid']}", "valid")
     for t in c.types:
         for st in t["states"]:
             for _ in range(6 if tier == "quick" else 60):
